@@ -22,7 +22,7 @@ RULE = (
     "pre-emption while a SimLock was held or at least one contended acquire; distinct = distinct "
     "event-log digest (every context switch with step index and reason, lock events, every response)"
 )
-ABSTRACTION = "sequence of (thread, lock-acquire) and (thread, query-completed) events per workload"
+ABSTRACTION = "order of (thread, lock-acquire) and (thread, query-completed) events, independent of basis and lengths"
 COMPONENTS = {
     "real": ["permuta.perm_sets.permset.Av", "Basis", "MeshBasis", "Perm", "MeshPatt", "CPython threads"],
     "simulated": ["Av._CACHE_LOCK and any Lock/RLock created in permuta.perm_sets (SimLock)",
@@ -34,14 +34,14 @@ ASSUMPTIONS = [
     "reference = brute-force avoider sets on plain tuples (ref/classes.py)",
 ]
 EXPECTED_PROBES = ["preempt_while_lock_held", "contended_acquire", "lock_handoff", "prehistory", "mesh_basis",
-                   "own_handle", "clear_cache_thread"]
+                   "own_handle", "clear_cache_thread", "live_iterator_across_queries"]
 
 _STATE = {"installed": False, "registry": [], "last_steps": 0}
 
 
 def plan(tier):
     if tier == "quick":
-        return {"runs": 9000, "chunk": 60, "wall_cap": 150}
+        return {"runs": 16000, "chunk": 50, "wall_cap": 180}
     return {"runs": 300000, "chunk": 200, "wall_cap": 3000}
 
 
@@ -105,6 +105,15 @@ def gen_case(rng, tier):
         nops = rng.choice([1, 1, 2, 2, 3, 4])
         ops = [avops.gen_query(rng, ref, nmax, classical, allow_first, others) for _ in range(nops)]
         own = rng.random() < 0.3
+        if rng.random() < 0.3:
+            # a live iterator held across the thread's other queries
+            kind = rng.choice(["of_length", "of_length", "up_to_length"])
+            n = max(0, nmax - rng.choice([0, 0, 1, 2]))
+            pos = rng.randrange(len(ops) + 1)
+            ops.insert(pos, {"op": "iter_new", "kind": kind, "n": n})
+            for _ in range(rng.randint(1, 3)):
+                p2 = rng.randrange(pos + 1, len(ops) + 1)
+                ops.insert(p2, {"op": "iter_step", "k": rng.choice([1, 2, 5, 1000])})
         threads.append({"handle": "own" if own else "shared", "form": common.gen_form(rng, items),
                         "salt": rng.randint(0, 3), "ops": ops})
     if rng.random() < 0.12:
@@ -204,10 +213,34 @@ def execute(case):
                 av = shared
             res = []
             responses[tid] = res
+            live = {"it": None, "op": None, "items": [], "done": False}
             for j, op in enumerate(tdesc["ops"]):
                 if op["op"] == "clear_cache":
                     pm.Av.clear_cache()
                     resp = ["v", None]
+                elif op["op"] == "iter_new":
+                    try:
+                        it = av.of_length(op["n"]) if op["kind"] == "of_length" else av.up_to_length(op["n"])
+                        live.update(it=iter(it), op=op, items=[], done=False)
+                        resp = ["v", None]
+                    except Exception as exc:  # pylint: disable=broad-except
+                        resp = ["exc", type(exc).__name__, str(exc)[:200]]
+                elif op["op"] == "iter_step":
+                    resp = ["v", None]
+                    if live["it"] is not None and not live["done"]:
+                        try:
+                            for _ in range(op["k"]):
+                                try:
+                                    live["items"].append(list(next(live["it"])))
+                                except StopIteration:
+                                    live["done"] = True
+                                    break
+                                sched.yp(tid, "consume")
+                        except Exception as exc:  # pylint: disable=broad-except
+                            resp = ["exc", type(exc).__name__, str(exc)[:200]]
+                            live["done"] = True
+                        resp = resp if resp[0] == "exc" else ["v", {"kind": live["op"]["kind"], "n": live["op"]["n"],
+                                                                     "items": list(live["items"]), "done": live["done"]}]
                 else:
                     resp = avops.run_query(av, op, lambda: sched.yp(tid, "consume"))
                 res.append(resp)
@@ -251,7 +284,25 @@ def execute(case):
             if len(res) != len(tdesc["ops"]):
                 raise core.HarnessError("thread finished without answering all ops")
             for j, (op, resp) in enumerate(zip(tdesc["ops"], res)):
-                if op["op"] == "clear_cache":
+                if op["op"] in ("clear_cache", "iter_new") and resp[0] == "v":
+                    continue
+                if op["op"] == "iter_step" and resp[0] == "v":
+                    if resp[1] is None:
+                        continue
+                    out.probe("live_iterator_across_queries")
+                    st = resp[1]
+                    if st["done"]:
+                        bad = avops.check_query(ref, {"op": st["kind"], "n": st["n"]}, ["v", st["items"]], ref_max)
+                    else:
+                        bad = None
+                        tup = [tuple(p) for p in st["items"]]
+                        if len(set(tup)) != len(tup):
+                            bad = ("wrong_answer", {"op": "iter:" + st["kind"], "what": "duplicate"}, "live iterator yielded a permutation twice")
+                        for p in tup:
+                            if len(p) <= ref_max and p not in RC.level(ref, len(p)):
+                                bad = ("wrong_answer", {"op": "iter:" + st["kind"]}, f"live iterator yielded non-member {p}")
+                    if bad:
+                        findings.append(("conc", tid, j, op, bad))
                     continue
                 bad = avops.check_query(ref, op, resp, ref_max)
                 if bad:
@@ -277,7 +328,7 @@ def execute(case):
 
     # abstraction: lock acquisition order and query completion order
     abst = [e for e in log.head if e.startswith("('acq'") or e.startswith("('res'")]
-    out.abstraction = str(hash((str(case["basis"]), tuple(e[:14] for e in abst))))
+    out.abstraction = str(hash(tuple(e[:14] for e in abst)))
     out.digest = log.digest()
     return out
 
